@@ -11,7 +11,11 @@ for d in sorted(glob.glob("/verif/seeded/*/")):
     v = m.get("verified_here", {})
     ok = v.get("patch_applies") and v.get("demo_clean", {}).get("exit") == 0 and v.get("demo_patched", {}).get("exit") == 1
     checks = v.get("checks", {})
-    res = "; ".join(f"{p}: {'caught ' + ', '.join('`'+b+'`' for b in c['buckets'][:2]) if c['caught'] else 'MISSED'} ({c['wall_s']:.0f} s)" for p, c in checks.items())
+    def one(p, c):
+        k = c.get("caught_seeds", "1/1" if c.get("caught") else "0/1")
+        hit = not k.startswith("0/")
+        return f"{p}: {('caught ' + k + ' seeds ' + ', '.join('`'+b+'`' for b in c['buckets'][:2])) if hit else 'MISSED (' + k + ')'} ({c['wall_s']:.0f} s)"
+    res = "; ".join(one(p, c) for p, c in checks.items())
     title = (m.get("title") or "").replace("|", "/")
     needs = (m.get("needs") or "")
     if isinstance(needs, (list, dict)): needs = json.dumps(needs)
